@@ -5,7 +5,7 @@
 From GT Require Import Visitor Validate.
 From Coq Require Import Permutation.
 From GTS Require Import Annot WfSchema SpecRules SpecValid.
-From GTP Require Import C14_proofs.
+From GTP Require Import C14_proofs C14_more_proofs C14_schema_proofs C14_merge_model_proofs.
 
 (* permuting the definitions of the document does not change any rule's specification verdict *)
 Theorem C14_spec_perm_definitions : forall r s d d',
@@ -19,7 +19,7 @@ Print Assumptions C14_spec_perm_definitions.
 Theorem C14_model_perm_definitions : forall r s d d',
   r <> R_OverlappingFieldsCanBeMerged ->
   wf_schema s = true -> doc_types_proper d = true -> defaults_const d = true ->
-  distinct_fragments d = true -> distinct_operations d = true -> rule_in_scope r s d = true ->
+  distinct_fragments d = true -> rule_in_scope r s d = true ->
   Permutation d d' ->
   (run_alone r s d = [] <-> run_alone r s d' = []).
 Proof. exact run_alone_perm_definitions. Qed.
@@ -32,3 +32,206 @@ Theorem C14_spec_perm_schema : forall r s s' d,
   violated r s d = violated r s' d.
 Proof. exact violated_perm_schema. Qed.
 Print Assumptions C14_spec_perm_schema.
+
+(* C14_additions.v — to be appended to properties/C14.v.  Needs, next to the imports of C14.v:
+From GTP Require Import C14_more_proofs C14_schema_proofs C14_merge_model_proofs.
+   (_CoqProject: proofs/C14_more_proofs.v, proofs/C14_schema_proofs.v, in this order, right after
+    proofs/C14_proofs.v; proofs/C14_merge_model_proofs.v after proofs/C05_proofs.v) *)
+
+(* ---- (c) arguments: [perm_args_doc d d'] = d' is d with the argument list of every field and of
+   every directive replaced by a permutation of it ([rdoc (fun n => n) None true false false], C14_more_proofs.v) *)
+Theorem C14_spec_perm_arguments : forall r s d d',
+  perm_args_doc d d' -> violated r s d = violated r s d'.
+Proof. exact violated_perm_arguments. Qed.
+Print Assumptions C14_spec_perm_arguments.
+
+Theorem C14_model_perm_arguments : forall r s d d',
+  r <> R_OverlappingFieldsCanBeMerged ->
+  wf_schema s = true -> doc_types_proper d = true -> defaults_const d = true ->
+  distinct_fragments d = true -> rule_in_scope r s d = true ->
+  perm_args_doc d d' ->
+  (run_alone r s d = [] <-> run_alone r s d' = []).
+Proof. exact run_alone_perm_arguments. Qed.
+Print Assumptions C14_model_perm_arguments.
+
+(* ---- (c) variable definitions: [perm_vars_doc d d'] = the variable definitions of every operation
+   permuted.  With two definitions of one variable name the usage check reads the first, so the
+   variable-position rule needs "variable names unique" (which is rule UniqueVariableNames). *)
+Theorem C14_spec_perm_variable_definitions : forall r s d d',
+  perm_vars_doc d d' ->
+  (r = R_VariablesInAllowedPosition -> violated R_UniqueVariableNames s d = false) ->
+  violated r s d = violated r s d'.
+Proof. exact violated_perm_variable_definitions. Qed.
+Print Assumptions C14_spec_perm_variable_definitions.
+
+Theorem C14_model_perm_variable_definitions : forall r s d d',
+  r <> R_OverlappingFieldsCanBeMerged ->
+  wf_schema s = true -> doc_types_proper d = true -> defaults_const d = true ->
+  distinct_fragments d = true -> rule_in_scope r s d = true ->
+  perm_vars_doc d d' ->
+  (r = R_VariablesInAllowedPosition -> violated R_UniqueVariableNames s d = false) ->
+  (run_alone r s d = [] <-> run_alone r s d' = []).
+Proof. exact run_alone_perm_variable_definitions. Qed.
+Print Assumptions C14_model_perm_variable_definitions.
+
+(* the hypothesis is needed, for the specification and for the model alike *)
+Theorem C14_perm_vars_needs_unique_variable_names :
+  wf_schema cxv_schema = true /\ perm_vars_doc cxv_d1 cxv_d2 /\
+  violated R_UniqueVariableNames cxv_schema cxv_d1 = true /\
+  violated R_VariablesInAllowedPosition cxv_schema cxv_d1 = false /\
+  violated R_VariablesInAllowedPosition cxv_schema cxv_d2 = true /\
+  run_alone R_VariablesInAllowedPosition cxv_schema cxv_d1 = [] /\
+  run_alone R_VariablesInAllowedPosition cxv_schema cxv_d2 <> [].
+Proof. exact perm_vars_needs_unique_variable_names. Qed.
+Print Assumptions C14_perm_vars_needs_unique_variable_names.
+
+(* ---- (b) selections: [perm_sels_doc d d'] = the selections of every selection set (of operations,
+   fragment definitions, fields, inline fragments) permuted, recursively.  Holds for every rule,
+   field merging and single-field subscriptions included. *)
+Theorem C14_spec_perm_selections : forall r s d d',
+  perm_sels_doc d d' -> violated r s d = violated r s d'.
+Proof. exact violated_perm_selections. Qed.
+Print Assumptions C14_spec_perm_selections.
+
+Theorem C14_model_perm_selections : forall r s d d',
+  r <> R_OverlappingFieldsCanBeMerged ->
+  wf_schema s = true -> doc_types_proper d = true -> defaults_const d = true ->
+  distinct_fragments d = true -> rule_in_scope r s d = true ->
+  perm_sels_doc d d' ->
+  (run_alone r s d = [] <-> run_alone r s d' = []).
+Proof. exact run_alone_perm_selections. Qed.
+Print Assumptions C14_model_perm_selections.
+
+(* ---- all three rewrites at once *)
+Theorem C14_spec_perm_lists : forall r s d d',
+  perm_lists_doc d d' ->
+  (r = R_VariablesInAllowedPosition -> violated R_UniqueVariableNames s d = false) ->
+  violated r s d = violated r s d'.
+Proof. exact violated_perm_lists. Qed.
+Print Assumptions C14_spec_perm_lists.
+
+(* ---- (d) operations renamed: [rename_ops_doc fo d d'] = d' is d with every operation name n replaced
+   by fo n (nothing else changes; d' = map (rename_def fo) d, lemma rename_ops_doc_map), fo injective
+   on the operation names of d *)
+Theorem C14_spec_rename_operations : forall fo r s d d',
+  rename_ops_doc fo d d' -> injective_on fo (named_operation_names d) ->
+  violated r s d = violated r s d'.
+Proof. exact violated_rename_operations. Qed.
+Print Assumptions C14_spec_rename_operations.
+
+Theorem C14_model_rename_operations : forall fo r s d d',
+  r <> R_OverlappingFieldsCanBeMerged ->
+  wf_schema s = true -> doc_types_proper d = true -> defaults_const d = true ->
+  distinct_fragments d = true -> rule_in_scope r s d = true ->
+  rename_ops_doc fo d d' -> injective_on fo (named_operation_names d) ->
+  (run_alone r s d = [] <-> run_alone r s d' = []).
+Proof. exact run_alone_rename_operations. Qed.
+Print Assumptions C14_model_rename_operations.
+
+Theorem C14_rename_ops_doc_map : forall fo d, rename_ops_doc fo d (map (rename_def fo) d).
+Proof. exact rename_ops_doc_map. Qed.
+Print Assumptions C14_rename_ops_doc_map.
+
+(* injectivity is needed *)
+Theorem C14_rename_needs_injective :
+  rename_ops_doc (fun _ => "Q") [cxr_op "A"; cxr_op "B"] [cxr_op "Q"; cxr_op "Q"] /\
+  violated R_UniqueOperationNames cx_schema [cxr_op "A"; cxr_op "B"] = false /\
+  violated R_UniqueOperationNames cx_schema [cxr_op "Q"; cxr_op "Q"] = true.
+Proof. exact rename_needs_injective. Qed.
+Print Assumptions C14_rename_needs_injective.
+
+(* ---- (d) aliases rewritten: [rename_aliases_doc h d d'] = d' is d with the alias of every field chosen
+   such that the field's response key k becomes h k (nothing else changes; e.g. d' = map (realias_def h) d,
+   lemma rename_aliases_doc_map), h injective: response-key equalities are preserved *)
+Theorem C14_spec_rename_aliases : forall h r s d d',
+  rename_aliases_doc h d d' -> (forall a b, h a = h b -> a = b) ->
+  violated r s d = violated r s d'.
+Proof. exact violated_rename_aliases. Qed.
+Print Assumptions C14_spec_rename_aliases.
+
+Theorem C14_model_rename_aliases : forall h r s d d',
+  r <> R_OverlappingFieldsCanBeMerged ->
+  wf_schema s = true -> doc_types_proper d = true -> defaults_const d = true ->
+  distinct_fragments d = true -> rule_in_scope r s d = true ->
+  rename_aliases_doc h d d' -> (forall a b, h a = h b -> a = b) ->
+  (run_alone r s d = [] <-> run_alone r s d' = []).
+Proof. exact run_alone_rename_aliases. Qed.
+Print Assumptions C14_model_rename_aliases.
+
+Theorem C14_rename_aliases_doc_map : forall h d, rename_aliases_doc h d (map (realias_def h) d).
+Proof. exact rename_aliases_doc_map. Qed.
+Print Assumptions C14_rename_aliases_doc_map.
+
+(* injectivity is needed: two fields that get the same response key may not merge *)
+Theorem C14_realias_needs_injective :
+  rename_aliases_doc (fun _ => "x") cxa_doc (map (realias_def (fun _ => "x")) cxa_doc) /\
+  violated R_OverlappingFieldsCanBeMerged cx_schema cxa_doc = false /\
+  violated R_OverlappingFieldsCanBeMerged cx_schema (map (realias_def (fun _ => "x")) cxa_doc) = true.
+Proof. exact realias_needs_injective. Qed.
+Print Assumptions C14_realias_needs_injective.
+
+(* ---- (h), inside the definitions: [perm_inside_schema s s'] = s' is s with, in every definition, the
+   fields of an object / interface / input-object type, the arguments of every field and directive
+   definition, the enum values, the union members, the implements-lists and the directive locations
+   replaced by permutations (C14_schema_proofs.v); the order of the definitions themselves is
+   C14_spec_perm_schema *)
+Theorem C14_spec_perm_inside_schema : forall r s s' d,
+  perm_inside_schema s s' -> wf_schema s = true ->
+  violated r s d = violated r s' d.
+Proof. exact violated_perm_inside_schema. Qed.
+Print Assumptions C14_spec_perm_inside_schema.
+
+Theorem C14_model_perm_inside_schema : forall r s s' d,
+  r <> R_OverlappingFieldsCanBeMerged ->
+  wf_schema s = true ->
+  doc_types_proper d = true -> defaults_const d = true ->
+  distinct_fragments d = true -> rule_in_scope r s d = true ->
+  perm_inside_schema s s' ->
+  (run_alone r s d = [] <-> run_alone r s' d = []).
+Proof. exact run_alone_perm_inside_schema. Qed.
+Print Assumptions C14_model_perm_inside_schema.
+
+(* the rewritten schema is well-formed again *)
+Theorem C14_wf_schema_perm_inside : forall s s',
+  perm_inside_schema s s' -> wf_schema s = true -> wf_schema s' = true.
+Proof. exact wf_schema_perm_inside. Qed.
+Print Assumptions C14_wf_schema_perm_inside.
+
+(* ---- the model's field-merging rule, where its equivalence with the specification is proved (C05:
+   [merge_side s d] = no named fragment spreads in d, fields at distinct positions, argument names
+   unique): invariant under all the list permutations and under the rewriting of the schema *)
+Theorem C14_model_merge_perm_lists : forall s d d',
+  wf_schema s = true -> merge_side s d -> perm_lists_doc d d' ->
+  (run_alone R_OverlappingFieldsCanBeMerged s d = [] <-> run_alone R_OverlappingFieldsCanBeMerged s d' = []).
+Proof. exact run_alone_merge_perm_lists. Qed.
+Print Assumptions C14_model_merge_perm_lists.
+
+Theorem C14_model_merge_perm_arguments : forall s d d',
+  wf_schema s = true -> merge_side s d -> perm_args_doc d d' ->
+  (run_alone R_OverlappingFieldsCanBeMerged s d = [] <-> run_alone R_OverlappingFieldsCanBeMerged s d' = []).
+Proof. exact run_alone_merge_perm_arguments. Qed.
+Print Assumptions C14_model_merge_perm_arguments.
+
+Theorem C14_model_merge_perm_selections : forall s d d',
+  wf_schema s = true -> merge_side s d -> perm_sels_doc d d' ->
+  (run_alone R_OverlappingFieldsCanBeMerged s d = [] <-> run_alone R_OverlappingFieldsCanBeMerged s d' = []).
+Proof. exact run_alone_merge_perm_selections. Qed.
+Print Assumptions C14_model_merge_perm_selections.
+
+Theorem C14_model_merge_perm_inside_schema : forall s s' d,
+  wf_schema s = true -> merge_side s d -> perm_inside_schema s s' ->
+  (run_alone R_OverlappingFieldsCanBeMerged s d = [] <-> run_alone R_OverlappingFieldsCanBeMerged s' d = []).
+Proof. exact run_alone_merge_perm_inside_schema. Qed.
+Print Assumptions C14_model_merge_perm_inside_schema.
+
+Theorem C14_model_merge_rename_operations : forall fo s d d',
+  wf_schema s = true -> merge_side s d -> rename_ops_doc fo d d' -> injective_on fo (named_operation_names d) ->
+  (run_alone R_OverlappingFieldsCanBeMerged s d = [] <-> run_alone R_OverlappingFieldsCanBeMerged s d' = []).
+Proof. exact run_alone_merge_rename_operations. Qed.
+Print Assumptions C14_model_merge_rename_operations.
+
+Theorem C14_model_merge_rename_aliases : forall h s d d',
+  wf_schema s = true -> merge_side s d -> rename_aliases_doc h d d' -> (forall a b, h a = h b -> a = b) ->
+  (run_alone R_OverlappingFieldsCanBeMerged s d = [] <-> run_alone R_OverlappingFieldsCanBeMerged s d' = []).
+Proof. exact run_alone_merge_rename_aliases. Qed.
+Print Assumptions C14_model_merge_rename_aliases.
